@@ -67,6 +67,29 @@ func c18Hashes(r *Run) {
 		r.Eval("dec/"+v.String(), true)
 	}
 	r.Count(fmt.Sprintf("decimal-diffs:%d", len(ints)))
+	// the one value shape the serializer cannot read back (known finding): CRLMetaInfo.NextUpdate by year
+	years := []int{0}
+	for y := 1900; y <= 2110; y += 1 {
+		years = append(years, y)
+	}
+	years = append(years, 1, 1000, 1949, 1950, 2049, 2050, 9999)
+	for _, y := range years {
+		m := crlreader.CRLMetaInfo{Issuer: cn("CA"), ThisUpdate: time.Date(2024, 1, 1, 0, 0, 0, 0, time.UTC)}
+		line := "kv metart -"
+		if y != 0 {
+			m.NextUpdate = time.Date(y, 6, 15, 12, 0, 0, 0, time.UTC)
+			line = fmt.Sprintf("kv metart %d", y)
+		}
+		obs := "unreadable"
+		if raw, err := ser.SerializeMetaInfo(&m); err == nil {
+			if back, err := ser.DeserializeMetaInfo(raw); err == nil && back.NextUpdate.Equal(m.NextUpdate) {
+				obs = "readable"
+			}
+		} else {
+			obs = "unserializable"
+		}
+		b.add(line, obs)
+	}
 	b.flush(r)
 }
 
